@@ -33,12 +33,15 @@ def main(argv=None):
     load_all()
 
     if args.cmd == "check":
-        code, summ = report.run_property(args.prop, args.tier, rules=args.rule)
-        if code == 0 and args.tier == "thorough" and not args.rule:
+        extra = None
+        st_code = 0
+        if args.tier == "thorough" and not args.rule:
             from . import selftest
 
-            code = selftest.run_for_property(args.prop)
-        return code
+            st_code, st = selftest.run_all(jobs=min(16, os.cpu_count() or 1), prop=args.prop)
+            extra = {"selftest": st}
+        code, summ = report.run_property(args.prop, args.tier, rules=args.rule, extra_cov=extra)
+        return max(code, st_code) if st_code == 2 else code
     if args.cmd == "all":
         tree = core.Tree()
         props = sorted({p for r in report.RULES.values() for p in r.props})
@@ -78,12 +81,12 @@ def main(argv=None):
         if args.full:
             from . import selftest
 
-            return selftest.run_all(jobs=16)
+            return selftest.run_all(jobs=16)[0]
         return 0
     if args.cmd == "selftest":
         from . import selftest
 
-        return selftest.run_all(jobs=args.jobs, prop=args.prop, verbose=args.v)
+        return selftest.run_all(jobs=args.jobs, prop=args.prop, verbose=args.v)[0]
     return 2
 
 
